@@ -14,7 +14,7 @@ Feat(id, s, e, strand, attrs) == [seqid |-> "chr1", source |-> "src" \o id, type
                                   score |-> ".", strand |-> strand, phase |-> ".", attrs |-> attrs]
 FeatsFor(len, sh) ==
     CASE sh = "none"    -> <<>>
-      [] sh = "ends"    -> <<Feat("a", 1, 1, "+", <<<<"ID", "first">>>>), Feat("b", len, len, "-", <<<<"ID", "last">>, <<"Name", "z z">>>>),
+      [] sh = "ends"    -> <<Feat("a", 1, 1, "+", <<<<"ID", "first">>>>), Feat("b", len, len, "-", <<<<"ID", "last">>, <<"Name", "z z">>, <<"zz", "ends with a blank ">>>>),
                             Feat("c", 1, len, "+", <<<<"ID", "all">>, <<"Note", "whole, sequence">>, <<"a", "1">>>>)>>
       [] sh = "inner"   -> <<Feat("d", (len + 1) \div 2, len, ".", <<<<"ID", "half">>>>)>>
 Rec == [name |-> "region_1", rstart |-> 1, rend |-> n, seq |-> SeqOf(n), feats |-> FeatsFor(n, shape)]
